@@ -2,24 +2,36 @@
 
 proof:  lean/AdeptProofs/Props/C06.lean (address / rank / extent theorem per operation, composition over a list of
         operations, containment in the parent and in the allocation, rejection in the bounds-checked build,
-        is_contiguous) over the model lean/AdeptModel/Views.lean.
-tie:    hand-written model  <->  Array::operator()(int / end-k / range / stride / __), subset, operator[], T, permute,
-        diag_vector, submatrix_on_diagonal, reshape, soft_link, is_contiguous, executed by harness/drv_views*.cpp on
-        Array<r,int>, r = 1..5 (row- and column-major parents holding their own cell numbers).  After every
-        operation: rank, extents, offsets, data()-parent.data(), every element (read through operator()), then a
-        write of fresh values through the view and a diff of the whole parent allocation; compared exactly with the
-        model.  Two builds: default (admissible arguments only) and -DADEPT_BOUNDS_CHECKING (also a malformed stream
-        that puts an out-of-range value in every argument position).
+        is_contiguous, evaluation of `end` arithmetic and of integer-vector expressions) over the model
+        lean/AdeptModel/Views.lean.
+tie:    hand-written model  <->  Array::operator()(int / index expression / range / stride / __), subset, operator[], T,
+        permute, diag_vector, submatrix_on_diagonal, reshape, soft_link, is_contiguous, executed by harness/drv_views*.cpp
+        on Array<r,int>, r = 1..6 (row- and column-major parents holding their own cell numbers), on ACTIVE arrays
+        Array<r,double,true>, r = 1..3 (op `aparent`; also gradient_index() of every view) and on FixedArray<int,false,..>
+        parents (op `fparent`: FixedArray.h has its own copy of every member).  Every member that has a const overload
+        (operator() scalar and ranged, subset, operator[], T, soft_link, integer-vector operator()) is driven through the
+        non-const AND the const object (op prefix `c`, chosen per operation), on views that are themselves views with
+        non-unit / negative strides and non-zero begin.  After every operation: rank, extents, offsets,
+        data()-parent.data(), every element (read through the const operator()), then a write of fresh values through
+        the view (non-const operator()) and a diff of the whole parent allocation; compared exactly with the model.
+        Two builds: default (admissible arguments only) and -DADEPT_BOUNDS_CHECKING (also a malformed stream that puts an
+        out-of-range value in every argument position).
+        Index expressions: an index, range end point or stride is k, end-k, or one of the compiled shapes of `end`
+        arithmetic (XSHAPES below = harness/drv_views.h: k-end, end/k, k/end, (end-k)/m, end, k+end, k*end, end-end/k,
+        end+k, end*k, k-end/m, k*end-m, (k-end)*m, k/(end-m), k-(m-end), max(end-k,m), min(k,end), end*end/k,
+        end/k+end/m: scalar-left, scalar-right and expression-expression forms of + - * / max min, nested), the integers
+        solved so that the expression has the wanted value; ranks 1..3, in the roles scalar / range begin / range end /
+        both / stride.
         Integer-vector indexing (IndexedArray.h; op `ix`, harness/drv_views_idx*.cpp, model AdeptModel/IndexedViews.lean):
-        A(S0,S1,..) on the current view of rank 1..4 with every S a scalar int / end-k / range / stride / __ /
-        intVector / integer expression (tmp+2, end-tmp), at least one vector; the argument-type patterns are a menu
-        compiled once (all 3 for rank 1, every mixture for rank 2, every mixture of int/end-k/range/__/intVector for
-        rank 3, 12 fixed patterns for rank 4), the values come from the stream.  Answer: rank, extents, the values read
-        by B = A(..), the diff of the whole parent allocation after A(..) = V (fresh values) and after A(..) = -7.  In the
-        bounds-checked build also: entries n, n+1, -1 at every position of every index vector, bad scalars and range
-        end points.
+        A(S0,S1,..) on the current view of rank 1..4 with every S a scalar / range / stride / __ / intVector / integer
+        vector expression (tmp+2, end-tmp and the shapes VSHAPES: k-idx, idx*k, (end-idx)/k, idx+idx, k+idx, k*idx, idx/k,
+        idx-k, end-idx*k, (k-idx)-end, k/idx, min(idx,k), max(k,idx)), at least one vector; the argument-type patterns are
+        a menu compiled once, the values come from the stream.  Answer: rank, extents, the values read by B = A(..), the
+        diff of the whole parent allocation after A(..) = V (fresh values) and after A(..) = -7.  In the bounds-checked
+        build also: entries n, n+1, -1 at every position of every index vector, bad scalars and range end points.
 oracle: the composed index map evaluated element by element in Python (a view is the list of parent cells it
-        denotes; no base/stride arithmetic, no use of the Lean model), judged against the implementation's output.
+        denotes; no base/stride arithmetic, no use of the Lean model; index expressions evaluated by a small Python
+        evaluator with C truncating division), judged against the implementation's output.
         For `ix`: per dimension the list of parent indices the selector denotes (plain integer arithmetic), the
         elements are the tuples of their product in index order; an element with a component outside 0..n-1 must not
         be accessed (bounds-checked build: index_out_of_bounds, and the only cells changed are cells of in-range
@@ -36,11 +48,14 @@ REQUIRED = ["C06_slice_addr", "C06_slice_rank", "C06_range_extent", "C06_subset_
             "C06_checked_rejects", "C06_checked_rejects_sub1", "C06_checked_rejects_subset", "C06_checked_accepts",
             "C06_within_parent_checked", "C06_is_contiguous_iff",
             "C06_indexed_addr", "C06_indexed_extents", "C06_indexed_within_parent", "C06_indexed_read_write",
-            "C06_indexed_write_through", "C06_indexed_checked_rejects"]
+            "C06_indexed_write_through", "C06_indexed_checked_rejects",
+            "C06_endexpr_forms", "C06_endexpr_operand_order", "C06_endexpr_reversal", "C06_endexpr_midpoint_admissible",
+            "C06_vexpr_entry", "C06_stride_expr_addr"]
 H = os.path.join(vbuild.VERIF, "harness")
-DRIVERS = [os.path.join(H, f) for f in ("drv_views.cpp", "drv_views_r4.cpp", "drv_views_r5.cpp",
-                                        "drv_views_r5i.cpp", "drv_views_r5e.cpp", "drv_views_idx.cpp",
-                                        "drv_views_idx3.cpp", "drv_views_idx3v.cpp", "drv_views_idx4.cpp")]
+DRIVERS = [os.path.join(H, f) for f in
+           ["drv_views.cpp"] + ["drv_views_r%d%s.cpp" % (r, x) for r in (4, 5, 6) for x in ("", "i", "e")] +
+           ["drv_views_act.cpp", "drv_views_fix.cpp", "drv_views_x1.cpp", "drv_views_x2.cpp", "drv_views_x3.cpp",
+            "drv_views_idx.cpp", "drv_views_idx3.cpp", "drv_views_idx3v.cpp", "drv_views_idx4.cpp"]]
 CORR = ("AdeptModel/Views.lean, AdeptModel/IndexedViews.lean <-> Array view-forming member functions and IndexedArray "
         "(harness/drv_views*.cpp)")
 SIG_EMPTY = "indexed-array-zero-extent-after-nonzero-leading-extent"
@@ -77,19 +92,197 @@ def parent_view(order, dims):
     return OV(dims, cells)
 
 
+# ---------------------------------------------------------------------- index expressions
+# E = k | eK (end - K) | end | (E op E),  op = + - * / > (max) < (min); inside an index-vector expression also `v`.
+# The harness compiles a menu of expression SHAPES (the text with every integer replaced by #): same lists, same order,
+# as XSHAPES / VSHAPES of harness/drv_views.h and drv_views_idx.h.  The first XMENU[r] shapes exist for rank-r views.
+XSHAPES = ["(#-end)", "(end/#)", "(#/end)", "((end-#)/#)", "end", "(#+end)", "(#*end)", "(end-(end/#))", "(end+#)", "(end*#)",
+           "(#-(end/#))", "((#*end)-#)", "((#-end)*#)", "(#/(end-#))", "(#-(#-end))", "((end-#)>#)", "(#<end)",
+           "((end*end)/#)", "((end/#)+(end/#))"]
+XMENU = {1: 19, 2: 8, 3: 4}
+VSHAPES = ["(#-v)", "(v*#)", "((end-v)/#)", "(v+v)", "(#+v)", "(#*v)", "(v/#)", "(v-#)", "(end-(v*#))", "((#-v)-end)", "(#/v)",
+           "(v<#)", "(#>v)"]
+NVMENU2 = 4
+
+
+class Undef(Exception):
+    """the C++ evaluation has undefined behaviour (division by zero): outside the property, never generated"""
+
+
+def cdiv(a, b):
+    if b == 0:
+        raise Undef()
+    q = abs(a) // abs(b)
+    return q if (a >= 0) == (b > 0) else -q
+
+
+def px_parse(t):
+    """expression text -> tree: int | 'end' | 'v' | (op, left, right); ValueError when malformed"""
+    def operand(i, depth):
+        if depth > 12 or i >= len(t):
+            raise ValueError(t)
+        if t[i] == "(":
+            l, i = operand(i + 1, depth + 1)
+            if i >= len(t) or t[i] not in "+-*/<>":
+                raise ValueError(t)
+            op = t[i]
+            r, i = operand(i + 1, depth + 1)
+            if i >= len(t) or t[i] != ")":
+                raise ValueError(t)
+            return (op, l, r), i + 1
+        if t.startswith("end", i):
+            return "end", i + 3
+        if t[i] == "v":
+            return "v", i + 1
+        j = i + 1 if t[i] == "-" else i
+        k = j
+        while k < len(t) and t[k].isdigit():
+            k += 1
+        if k == j:
+            raise ValueError(t)
+        return int(t[i:k]), k
+    node, i = operand(0, 0)
+    if i != len(t):
+        raise ValueError(t)
+    return node
+
+
+def px_eval(n, end, v=None):
+    """value of the tree with `end` = last index of the dimension (and v = one entry of the index vector)"""
+    if isinstance(n, int):
+        return n
+    if n == "end":
+        return end
+    if n == "v":
+        if v is None:
+            raise ValueError("v")
+        return v
+    op, l, r = n
+    a, b = px_eval(l, end, v), px_eval(r, end, v)
+    if op == "+":
+        return a + b
+    if op == "-":
+        return a - b
+    if op == "*":
+        return a * b
+    if op == "/":
+        return cdiv(a, b)
+    if op == ">":
+        return b if a < b else a
+    return a if a < b else b
+
+
+def px_shape(n):
+    if isinstance(n, int):
+        return "#"
+    if isinstance(n, str):
+        return n
+    return "(%s%s%s)" % (px_shape(n[1]), n[0], px_shape(n[2]))
+
+
+def px_fill(shape, consts):
+    """the expression text of a shape with its integers"""
+    it = iter(consts)
+    return "".join(str(next(it)) if ch == "#" else ch for ch in shape)
+
+
+def tok_rich(t):
+    return t.startswith("(") or t == "end"
+
+
+def tok_info(t):
+    """-> ('I', None) | ('E', None) | ('X', shape number or None when the shape is not in the menu); ValueError if malformed"""
+    if tok_rich(t):
+        n = px_parse(t)
+        sh = px_shape(n)
+        if "v" in sh:
+            raise ValueError(t)
+        if sh == "(end-#)":
+            return ("E", None)
+        return ("X", XSHAPES.index(sh) if sh in XSHAPES else None)
+    if t.startswith("e"):
+        int(t[1:])
+        return ("E", None)
+    int(t)
+    return ("I", None)
+
+
 def tok(t, length):
-    """E = k | eK (end - K)"""
+    """value of an index expression for a dimension of this length"""
+    if tok_rich(t):
+        return px_eval(px_parse(t), length - 1)
     if t.startswith("e"):
         return length - 1 - int(t[1:])
     return int(t)
 
 
-def cdiv(a, b):
-    q = abs(a) // abs(b)
-    return q if (a >= 0) == (b > 0) else -q
-
-
 UNDEF = ("undef",)   # the C++ has no meaningful result; never generated, never judged
+NOTCOMPILED = ("bad", "not-compiled")   # a legitimate call whose argument types are not in the harness menu
+
+
+def arg_parts(a):
+    """slice argument -> (kind, [tokens]) with kind S (scalar) / R (range, stride) / A (all); ValueError if malformed"""
+    if a == "_":
+        return "A", []
+    if a.startswith("i:"):
+        return "S", [a[2:]]
+    p = a[2:].split(",")
+    if a.startswith("r:") and len(p) == 2:
+        return "R", p
+    if a.startswith("s:") and len(p) == 3:
+        if tok_info(p[2])[0] == "E":
+            raise ValueError(a)
+        return "R", p
+    raise ValueError(a)
+
+
+def slice_compiled(kind, r, args):
+    """is this operator() call in the menu of argument types compiled into the harness (drv_views.h)?
+    kind: P passive Array, A active Array, F FixedArray"""
+    parts = [arg_parts(a) for a in args]
+    infos = [[tok_info(t) for t in toks] for _, toks in parts]
+    rich = [k for k, inf in enumerate(infos) if any(c == "X" for c, _ in inf)]
+    if not rich:
+        if kind == "P" and r == 6:
+            return all(k != "A" or j == r - 1 for j, (k, _) in enumerate(parts))
+        return True
+    if len(rich) > 1 or kind != "P" or r > 3:
+        return False
+    j = rich[0]
+    k, inf = parts[j][0], infos[j]
+    lim = XMENU[r]
+    if k == "S":
+        ok = inf[0][1] is not None and inf[0][1] < lim
+    else:
+        rb, re_ = inf[0][0] == "X", inf[1][0] == "X"
+        rs = len(inf) == 3 and inf[2][0] == "X"
+        ids = [i for c, i in inf if c == "X"]
+        if any(i is None or i >= lim for i in ids):
+            return False
+        if rb and not re_ and not rs:
+            ok = True                                   # role begin
+        elif re_ and not rb and not rs:
+            ok = r <= 2                                 # role end
+        elif rb and re_ and not rs:
+            ok = r == 1 and ids[0] == ids[1]            # both, same shape
+        elif rs and not rb and not re_:
+            ok = r == 1                                 # role stride
+        else:
+            ok = False
+    if not ok:
+        return False
+    if r == 3:
+        return all(kk in "SA" for jj, (kk, _) in enumerate(parts) if jj != j)
+    return True
+
+
+def tokens_compiled(kind, r, toks):
+    """subset(b0,e0,..) / operator[](i): at most one rich token, passive ranks 1-2"""
+    inf = [tok_info(t) for t in toks]
+    rich = [i for c, i in inf if c == "X"]
+    if not rich:
+        return True
+    return len(rich) == 1 and kind == "P" and r <= 2 and rich[0] is not None and rich[0] < XMENU[r]
 
 
 def sel_range(b, e, s, length, checked):
@@ -110,12 +303,21 @@ def gather(v, sels, drop):
     return OV(nd, cells)
 
 
-def oracle_apply(v, w, checked):
-    """-> ('ok', OV) | ('err', class) | ('bad',) | ('null',) | UNDEF       (documented semantics, element by element)"""
+CONST_OPS = ("slice", "subset", "idx", "T", "softlink")
+
+
+def oracle_apply(v, w, checked, kind="P"):
+    """-> ('ok', OV) | ('err', class) | ('bad',) | NOTCOMPILED | ('null',) | UNDEF   (documented semantics, element by element)
+    kind: the object the member is called on (P passive Array, A active Array, F the FixedArray parent)"""
     if v is None or v.null:
         return ("bad",)
     r = len(v.dims)
     op = w[0]
+    const = False
+    if op.startswith("c") and op[1:] in ("slice", "subset", "idx", "T", "softlink", "permute", "diag", "subdiag", "reshape"):
+        const, op = True, op[1:]
+        if op not in CONST_OPS:
+            return ("bad",)                 # permute, diag_vector, submatrix_on_diagonal, reshape have no const overload
     try:
         if r == 0:
             return ("bad",)
@@ -124,9 +326,14 @@ def oracle_apply(v, w, checked):
             if op == "subset":
                 if len(args) != 2 * r:
                     return ("bad",)
+                if not tokens_compiled(kind, r, args):
+                    return NOTCOMPILED
                 args = ["r:%s,%s" % (args[2 * k], args[2 * k + 1]) for k in range(r)]
-            if len(args) != r:
-                return ("bad",)
+            else:
+                if len(args) != r:
+                    return ("bad",)
+                if not slice_compiled(kind, r, args):
+                    return NOTCOMPILED
             sels, drop = [], []
             undef = False
             for a, L in zip(args, v.dims):
@@ -142,7 +349,7 @@ def oracle_apply(v, w, checked):
                 else:
                     p = a[2:].split(",")
                     b, e = tok(p[0], L), tok(p[1], L)
-                    s = int(p[2]) if a.startswith("s:") else 1
+                    s = tok(p[2], L) if a.startswith("s:") else 1
                     x = sel_range(b, e, s, L, checked)
                     if x == "index_out_of_bounds":
                         return ("err", x) if not undef else UNDEF
@@ -154,6 +361,10 @@ def oracle_apply(v, w, checked):
                 return UNDEF
             return ("ok", gather(v, sels, drop))
         if op == "idx" and len(w) == 2:
+            if not tokens_compiled(kind, r, [w[1]]):
+                return NOTCOMPILED
+            if const and kind == "F" and r > 1:
+                return NOTCOMPILED          # FixedArray has no const operator[] for rank > 1
             j = tok(w[1], v.dims[0])
             if not 0 <= j < v.dims[0]:
                 return ("err", "index_out_of_bounds") if checked else UNDEF
@@ -206,7 +417,7 @@ def oracle_apply(v, w, checked):
             return ("ok", gather(v, [rr, rr], [False, False]))
         if op == "reshape":
             nd = [int(x) for x in w[1:]]
-            if r != 1 or not 1 <= len(nd) <= 5:
+            if r != 1 or kind == "F" or not 1 <= len(nd) <= (3 if kind == "A" else 6):
                 return ("bad",)
             n = 1
             for d in nd:
@@ -217,9 +428,13 @@ def oracle_apply(v, w, checked):
                 return UNDEF
             return ("ok", OV(nd, v.cells))
         if op == "softlink" and len(w) == 1:
+            if kind == "F":
+                return ("bad",)             # FixedArray has no soft_link
             return ("ok", OV(v.dims, v.cells))
     except ValueError:
         return ("bad",)
+    except Undef:
+        return UNDEF
     return ("bad",)
 
 
@@ -227,32 +442,58 @@ def oracle_apply(v, w, checked):
 # ====================================================================== oracle: integer-vector indexing
 IX_MENU4 = ("IEVA", "EIEV", "VIEI", "AVIE", "IVRE", "VVVV", "EAVV", "RVAI", "IIEV", "VEEI", "AIVE", "VRAV")
 IX_VEC = "VXW"
+IX_PARTNER = "IERAV"        # partners of a vector expression U<n> (n < NVMENU2) in a rank-2 call (R: a range with an `end` end point)
 
 
 def ix_letter(a):
-    """letter of the C++ argument type the harness uses for selector token a (None: malformed)"""
+    """letter of the C++ argument type the harness uses for selector token a (None: malformed / not in any menu):
+    I int, E end-k, r range of ints, R range with an `end` end point, A __, V intVector, X tmp+2, W end-tmp,
+    U<n> vector expression number n of VSHAPES, Y<n> rich scalar expression number n of XSHAPES"""
     if a == "_":
         return "A"
     if a[:2] in ("v:", "x:", "w:"):
         return a[0].upper()
-    if a.startswith("i:"):
-        return "E" if a[2:3] == "e" else "I"
-    if a[:2] in ("r:", "s:"):
-        return "R"
-    return None
+    try:
+        if a.startswith("u:"):
+            p = a[2:].split(":")
+            if len(p) != 2:
+                return None
+            sh = px_shape(px_parse(p[0]))
+            return "U%d" % VSHAPES.index(sh) if sh in VSHAPES else None
+        k, toks = arg_parts(a)
+        inf = [tok_info(t) for t in toks]
+        if k == "S":
+            if inf[0][0] == "X":
+                return "Y%d" % inf[0][1] if inf[0][1] is not None and inf[0][1] < XMENU[2] else None
+            return inf[0][0]
+        if any(c == "X" for c, _ in inf):
+            return None                     # rich end points / strides are driven through `slice`, not through `ix`
+        return "R" if "E" in (inf[0][0], inf[1][0]) else "r"
+    except ValueError:
+        return None
+
+
+def ix_is_vec(l):
+    return l in ("V", "X", "W") or l.startswith("U")
 
 
 def ix_compiled(letters):
     """is this argument-type pattern in the menu compiled into the harness (drv_views_idx.h)?"""
     r = len(letters)
-    if not any(l in IX_VEC for l in letters):
+    if not any(ix_is_vec(l) for l in letters):
         return False
-    if r in (1, 2):
+    if r == 1:
         return True
+    if r == 2:
+        f, l = letters
+        plain = lambda x: len(x) == 1
+        u2 = lambda x: x.startswith("U") and int(x[1:]) < NVMENU2
+        return ((plain(f) and plain(l)) or (u2(f) and l in IX_PARTNER) or (u2(l) and f in IX_PARTNER)
+                or (f.startswith("Y") and l == "V") or (l.startswith("Y") and f == "V"))
     if r == 3:
-        return all(l in "IERAV" for l in letters)
+        return all(l in "IErRAV" for l in letters)
     if r == 4:
-        return "".join(letters) in IX_MENU4
+        return "".join("R" if l == "r" else l for l in letters) in IX_MENU4
     return False
 
 
@@ -260,10 +501,10 @@ def ints_of(t):
     return [int(x) for x in t.split(",")] if t else []
 
 
-def oracle_ix(v, w, checked):
-    """A(S0,S1,..) on the oracle view v -> ('bad',) | ('err', class) | UNDEF |
+def oracle_ix(v, w, checked, kind="P"):
+    """A(S0,S1,..) on the oracle view v -> ('bad',) | NOTCOMPILED | ('err', class) | UNDEF |
     ('ix', {'dims': extents, 'elems': parent index tuple of every element in index order, 'pdims': v.dims})"""
-    if v is None or v.null or not v.dims:
+    if v is None or v.null or not v.dims or kind != "P":
         return ("bad",)
     args = w[1:]
     if len(args) != len(v.dims):
@@ -271,7 +512,7 @@ def oracle_ix(v, w, checked):
     try:
         letters = [ix_letter(a) for a in args]
         if None in letters or not ix_compiled(letters):
-            return ("bad",)
+            return NOTCOMPILED if None not in letters else ("bad",)
         sels, undef = [], False
         for a, L in zip(args, v.dims):
             if a == "_":
@@ -282,10 +523,14 @@ def oracle_ix(v, w, checked):
                 sels.append((False, ints_of(a[2:])))
             elif a[0] == "w":
                 sels.append((False, [L - 1 - k for k in ints_of(a[2:])]))       # end - K
+            elif a[0] == "u":
+                ve, ent = a[2:].split(":")
+                tree = px_parse(ve)
+                sels.append((False, [px_eval(tree, L - 1, x) for x in ints_of(ent)]))
             else:
                 p = a[2:].split(",")
                 b, e = tok(p[0], L), tok(p[1], L)
-                st = int(p[2]) if a.startswith("s:") else 1
+                st = tok(p[2], L) if a.startswith("s:") else 1
                 x = sel_range(b, e, st, L, checked)
                 if x == "index_out_of_bounds":          # thrown by the constructor (get_size_with_len)
                     return ("err", x) if not undef else UNDEF
@@ -297,6 +542,8 @@ def oracle_ix(v, w, checked):
             return UNDEF
     except ValueError:
         return ("bad",)
+    except Undef:
+        return UNDEF
     dims = [len(x) for sc, x in sels if not sc]
     elems = [] if 0 in dims else list(itertools.product(*[x for _, x in sels]))
     return ("ix", {"dims": dims, "elems": elems, "pdims": list(v.dims)})
@@ -454,15 +701,41 @@ def judge_view(v, line, vol):
     return None
 
 
-def oracle(lines_in, lines_out, checked):
+FIXED_MENU = ([4], [3, 4], [3, 3], [2, 3, 4])      # the FixedArray<int,false,...> parents compiled into the harness
+FIXED_T_IS_VIEW = [False]                          # set by run() from fixed_T_probes()
+SIG_FIXED_T = "fixedarray-T-returns-copy"
+
+
+def parent_of(w):
+    """parent line -> (kind, OV) or None when the line is not an admissible parent line"""
+    try:
+        if w[0] in ("parent", "aparent") and len(w) >= 3 and w[1] in ("rm", "cm"):
+            dims = [int(x) for x in w[2:]]
+            if not 1 <= len(dims) <= (6 if w[0] == "parent" else 3) or any(d < 1 for d in dims):
+                return None
+            return ("P" if w[0] == "parent" else "A"), parent_view(w[1], dims)
+        if w[0] == "fparent":
+            dims = [int(x) for x in w[1:]]
+            return ("F", parent_view("rm", dims)) if dims in FIXED_MENU else None
+    except ValueError:
+        pass
+    return None
+
+
+def oracle(lines_in, lines_out, checked, limit=None):
     """judge one composition (list of op lines incl. the parent line) from the implementation's lines alone.
-    returns (index, message) or None"""
-    v, vol, last = None, 0, None
+    returns (index, message) or None.  limit (a list): receives the number of leading lines on which the model has to
+    agree with the implementation (everything before a call whose argument types are not compiled into the harness)"""
+    v, vol, last, kind = None, 0, None, "P"
     for i, (op, out) in enumerate(zip(lines_in, lines_out)):
         w = op.split()
-        if w[0] == "parent":
-            dims = [int(x) for x in w[2:]]
-            v = parent_view(w[1], dims)
+        if w[0] in ("parent", "aparent", "fparent"):
+            pk = parent_of(w)
+            if pk is None:
+                if out != "bad-op":
+                    return i, "not a parent the harness can build, implementation answered %r" % out[:100]
+                continue
+            kind, v = pk
             vol = len(v.cells)
             msg = judge_view(v, out, vol)
             if msg:
@@ -470,7 +743,7 @@ def oracle(lines_in, lines_out, checked):
             last = parse_line(out)
             continue
         if w[0] == "contig":
-            if v is None or v.null or not v.dims:
+            if v is None or v.null or not v.dims or kind == "F":
                 exp = "bad-op"
             else:
                 # is_contiguous() <=> the offsets the implementation itself reported are the packed row-major ones
@@ -478,27 +751,35 @@ def oracle(lines_in, lines_out, checked):
             if out != exp:
                 return i, "is_contiguous(): implementation %r, offsets/extents of the view say %r" % (out, exp)
             continue
-        if w[0] == "ix":
-            res = oracle_ix(v, w, checked)
+        if w[0] in ("ix", "cix"):
+            res = oracle_ix(v, w, checked, kind)
             if res is UNDEF:
                 return None
             if res[0] == "bad":
                 if out != "bad-op":
                     return i, "this indexing call is not in the compiled menu / does not exist, implementation answered %r" % out[:100]
+                if res is NOTCOMPILED:
+                    if limit is not None:
+                        limit.append(i)
+                    return None
             elif res[0] == "err":
                 if out != "err " + res[1]:
                     return i, "expected exception %s from the indexing call, implementation answered %r" % (res[1], out[:160])
             else:
                 msg = judge_ix(v, res[1], out, checked, vol)
                 if msg:
-                    return i, "ix: " + msg[0], msg[1]
+                    return i, "%s: %s" % (w[0], msg[0]), msg[1]
             continue               # an indexed array is an expression: the current view is unchanged
-        res = oracle_apply(v, w, checked)
+        res = oracle_apply(v, w, checked, kind)
         if res is UNDEF:
             return None            # outside the property (never generated); stop judging this composition
         if res[0] == "bad":
             if out != "bad-op":
-                return i, "operation does not exist for this rank, implementation answered %r" % out[:100]
+                return i, "operation does not exist for this rank / object, implementation answered %r" % out[:100]
+            if res is NOTCOMPILED:
+                if limit is not None:
+                    limit.append(i)
+                return None        # the model answers such a call, the harness cannot make it: stop here
         elif res[0] == "null":
             if out != "ok null":
                 return i, "diag_vector of an empty matrix: expected an empty vector, got %r" % out[:100]
@@ -509,26 +790,117 @@ def oracle(lines_in, lines_out, checked):
         else:
             msg = judge_view(res[1], out, vol)
             if msg:
+                if kind == "F" and w[0] in ("T", "cT"):
+                    return i, "FixedArray::T() does not return a view of the FixedArray: " + msg, SIG_FIXED_T
                 return i, "%s: %s" % (w[0], msg)
             v = res[1]
             last = parse_line(out)
+            if kind == "F":
+                kind = "P"         # the view returned by a FixedArray member is an ordinary Array
+            if kind == "A" and w[0] in ("softlink", "csoftlink"):
+                # an active array without Storage cannot be sliced further (invalid_operation, not a view): nothing to judge
+                if limit is not None:
+                    limit.append(i + 1)
+                return None
     return None
 
 
 # ====================================================================== generators
+# ---------------------------------------------------------------------- writing a value as an index expression
+def solve_shape(rng, shape, target, end, v=None, pool=None):
+    """integers for the # of a shape such that the expression has the value `target` for a dimension whose last index is
+    `end` (and index-vector entry v); -> list of ints or None.  All but one integer are drawn from a small pool, the
+    last one is searched; no division by zero is executed."""
+    n = shape.count("#")
+    if n == 0:
+        try:
+            return [] if px_eval(px_parse(shape), end, v) == target else None
+        except Undef:
+            return None
+    pool = pool or [1, 2, 3, -1, -2, 4, 5, 0, end, end + 1, 2 * end, 6, -3]
+    cand = sorted(range(-90, 91), key=lambda k: (abs(k), k < 0))
+    for _ in range(8):
+        consts = [rng.choice(pool) for _ in range(n)]
+        free = rng.randrange(n)
+        start = rng.randrange(6)
+        for k in cand[start:] + cand[:start]:
+            consts[free] = k
+            try:
+                if px_eval(px_parse(px_fill(shape, consts)), end, v) == target:
+                    return list(consts)
+            except Undef:
+                pass
+    return None
+
+
+def rich_token(rng, target, L, limit, stats=None, role="scalar"):
+    """an index expression of one of the first `limit` shapes of XSHAPES with the value `target` for a dimension of
+    length L, or None"""
+    ids = list(range(limit))
+    rng.shuffle(ids)
+    for i in ids[:6]:
+        c = solve_shape(rng, XSHAPES[i], target, L - 1)
+        if c is not None:
+            if stats is not None:
+                stats["rich_%s_shape_%s" % (role, XSHAPES[i])] = stats.get("rich_%s_shape_%s" % (role, XSHAPES[i]), 0) + 1
+            return px_fill(XSHAPES[i], c)
+    return None
+
+
+def vexpr_token(rng, targets, L, ids, stats=None):
+    """`u:VE:raw entries` whose entries evaluate to `targets` for a dimension of length L (shape out of ids), or None"""
+    ids = list(ids)
+    rng.shuffle(ids)
+    for i in ids[:5]:
+        shape = VSHAPES[i]
+        for _ in range(4):
+            consts = [rng.choice([1, 2, -1, 3, L - 1, L, 2 * L, 12, 0, -2, 24]) for _ in range(shape.count("#"))]
+            try:
+                tree = px_parse(px_fill(shape, consts))
+            except ValueError:
+                continue
+            raw = []
+            for t in targets:
+                x = None
+                for k in sorted(range(-90, 91), key=lambda k: (abs(k), k < 0)):
+                    try:
+                        if px_eval(tree, L - 1, k) == t:
+                            x = k
+                            break
+                    except Undef:
+                        pass
+                if x is None:
+                    break
+                raw.append(x)
+            if len(raw) == len(targets):
+                if stats is not None:
+                    stats["vector_expr_shape_%s" % shape] = stats.get("vector_expr_shape_%s" % shape, 0) + 1
+                return "u:%s:%s" % (px_fill(shape, consts), ",".join(map(str, raw)))
+    return None
+
+
 class Gen:
-    def __init__(self, rng, checked, malformed, depth, stats, contig=False, maxrank=5, pbad=0.3, w_ix=5):
+    def __init__(self, rng, checked, malformed, depth, stats, contig=False, maxrank=6, pbad=0.3, w_ix=5, kinds="PPPPPPPPAF"):
         self.rng, self.checked, self.malformed, self.depth, self.stats = rng, checked, malformed, depth, stats
-        self.contig, self.maxrank, self.pbad, self.w_ix = contig, maxrank, pbad, w_ix
+        self.contig, self.maxrank, self.pbad, self.w_ix, self.kinds = contig, maxrank, pbad, w_ix, kinds
         # ranks of the parent: mostly low in the valid streams (more operations apply), uniform in the malformed one
-        self.ranks = [1, 2, 3, 4, 5] if (malformed and pbad >= 0.3) else [1, 2, 2, 2, 3, 3, 4, 5]
+        self.ranks = [1, 2, 3, 4, 5, 6] if (malformed and pbad >= 0.3) else [1, 2, 2, 2, 3, 3, 4, 5, 6]
+        self.fixed_T_is_view = FIXED_T_IS_VIEW[0]   # FixedArray::T() is generated only where it is a view (finding, see fixed_T_probes)
+        self.p_rich = 0.3          # an eligible call gets one argument rewritten as `end` arithmetic
+        self.p_const = 0.5         # a member with a const overload is called through it
 
     def count(self, key):
         self.stats[key] = self.stats.get(key, 0) + 1
 
     def parent(self):
+        """-> (line, oracle view, kind): P passive Array<r,int>, A active Array<r,double,true>, F FixedArray parent"""
         rng = self.rng
-        r = rng.choice(self.ranks)
+        kind = rng.choice(self.kinds)
+        if kind == "F":
+            dims = list(rng.choice(FIXED_MENU))
+            self.count("parent_fixed_rank_%d" % len(dims))
+            return "fparent " + " ".join(map(str, dims)), parent_view("rm", dims), "F"
+        r = rng.choice(self.ranks) if kind == "P" else rng.choice([1, 2, 2, 3])
         cap = 240 if r <= 2 else 160
         while True:
             if r == 2 and rng.random() < 0.5:
@@ -537,16 +909,106 @@ class Gen:
             elif r == 1:
                 dims = [rng.choice([1, 2, 3, 4, 6, 8, 12, 16, 24, 30, 36, 60])]
             else:
-                dims = [rng.randint(1, 6 if r <= 3 else 4) for _ in range(r)]
+                dims = [rng.randint(1, 6 if r <= 3 else (4 if r <= 5 else 3)) for _ in range(r)]
             n = 1
             for d in dims:
                 n *= d
             if n <= cap:
                 break
         order = "rm" if rng.random() < 0.75 else "cm"
-        self.count("parent_rank_%d" % r)
+        self.count(("parent_rank_%d" if kind == "P" else "parent_active_rank_%d") % r)
         self.count("parent_" + order)
-        return "parent %s %s" % (order, " ".join(map(str, dims))), parent_view(order, dims)
+        return "%s %s %s" % ("parent" if kind == "P" else "aparent", order, " ".join(map(str, dims))), parent_view(order, dims), kind
+
+    # ------------------------------------------------------------ `end` arithmetic: value-preserving rewriting of one argument
+    def enrich_slice(self, args, dims, kind):
+        """rewrite the tokens of ONE argument of an operator() call as rich index expressions with the same values
+        (roles: scalar / begin / end / begin and end / stride, as far as compiled for this rank); None if not possible"""
+        rng = self.rng
+        r = len(dims)
+        if kind != "P" or r > 3:
+            return None
+        cand = [j for j, a in enumerate(args) if a != "_"]
+        rng.shuffle(cand)
+        for j in cand:
+            a, L = args[j], dims[j]
+            lim = XMENU[r]
+            try:
+                if a.startswith("i:"):
+                    t = rich_token(rng, tok(a[2:], L), L, lim, self.stats, "scalar")
+                    new = None if t is None else "i:" + t
+                else:
+                    p = a[2:].split(",")
+                    if len(p) == 2:
+                        p.append("1")
+                    roles = ["b", "e", "be", "s"] if r == 1 else (["b", "e"] if r == 2 else ["b"])
+                    role = rng.choice(roles)
+                    q = list(p)
+                    if "b" in role:
+                        q[0] = rich_token(rng, tok(p[0], L), L, lim, self.stats, "begin")
+                    if "e" in role:
+                        if role == "be" and q[0] is not None:
+                            # both end points: the same shape (one C++ type RangeIndex<X,X,int>)
+                            sh = px_shape(px_parse(q[0]))
+                            c = solve_shape(rng, sh, tok(p[1], L), L - 1)
+                            q[1] = None if c is None else px_fill(sh, c)
+                        else:
+                            q[1] = rich_token(rng, tok(p[1], L), L, lim, self.stats, "end")
+                    if role == "s":
+                        q[2] = rich_token(rng, tok(p[2], L), L, lim, self.stats, "stride")
+                    new = None if None in q else "s:" + ",".join(q)
+            except (ValueError, Undef):
+                new = None
+            if new is None:
+                continue
+            out = list(args)
+            out[j] = new
+            try:
+                if slice_compiled(kind, r, out):
+                    self.count("rich_slice_rank_%d" % r)
+                    return out
+            except ValueError:
+                pass
+        return None
+
+    def enrich_tokens(self, toks, lens, kind, r, what):
+        """subset / operator[]: one token rewritten as a rich expression"""
+        if kind != "P" or r > 2:
+            return None
+        j = self.rng.randrange(len(toks))
+        try:
+            t = rich_token(self.rng, tok(toks[j], lens[j]), lens[j], XMENU[r], self.stats, what)
+        except (ValueError, Undef):
+            return None
+        if t is None:
+            return None
+        out = list(toks)
+        out[j] = t
+        self.count("rich_%s_rank_%d" % (what, r))
+        return out
+
+    def finish(self, text, kind_of_op, v, kind):
+        """the rewriting applied to a generated operation: one argument as `end` arithmetic, const overload"""
+        rng = self.rng
+        w = text.split()
+        r = len(v.dims)
+        if rng.random() < self.p_rich:
+            if w[0] == "slice":
+                out = self.enrich_slice(w[1:], v.dims, kind)
+                if out:
+                    w = ["slice"] + out
+            elif w[0] == "subset":
+                out = self.enrich_tokens(w[1:], [v.dims[k // 2] for k in range(2 * r)], kind, r, "subset")
+                if out:
+                    w = ["subset"] + out
+            elif w[0] == "idx":
+                out = self.enrich_tokens(w[1:], [v.dims[0]], kind, r, "idx")
+                if out:
+                    w = ["idx"] + out
+        if w[0] in CONST_OPS and rng.random() < self.p_const and not (w[0] == "idx" and kind == "F" and r > 1):
+            w[0] = "c" + w[0]
+            self.count("const_" + kind_of_op)
+        return " ".join(w), kind_of_op
 
     def E(self, j, L):
         """write index j of a dimension of length L as k or end-K"""
@@ -585,19 +1047,25 @@ class Gen:
             return "s:%s,%s,%d" % (self.E(b, L), self.E(e, L), s), "stride+" if s > 0 else "stride-"
         return "_", "all"
 
-    def op(self, v):
-        """one operation on the oracle view v: (text, kind)"""
+    def op(self, v, okind="P"):
+        """one operation on the oracle view v held by an object of kind okind (P/A/F): (text, kind of operation)"""
+        text, kind = self.op_plain(v, okind)
+        if kind == "ix":
+            return text, kind
+        return self.finish(text, kind, v, okind)
+
+    def op_plain(self, v, okind):
         rng = self.rng
         r = len(v.dims)
         bad = self.malformed and rng.random() < self.pbad
-        choices = ["slice"] * 8 + ["subset"] * 2 + ["idx"] * 2 + ["softlink"] + ["permute"] * (2 if r > 1 else 1)
+        choices = ["slice"] * 8 + ["subset"] * 2 + ["idx"] * 2 + ["softlink"] * (0 if okind == "F" else 1) + ["permute"] * (2 if r > 1 else 1)
         if r == 2:
             square = v.dims[0] == v.dims[1]
-            choices += ["T"] * 2 + ["diag"] * (3 if square else 1) + ["subdiag"] * (3 if square else 1)
-        if r == 1:
+            choices += ["T"] * (2 if okind != "F" or self.fixed_T_is_view else 0) + ["diag"] * (3 if square else 1) + ["subdiag"] * (3 if square else 1)
+        if r == 1 and okind != "F":
             choices += ["reshape"] * 5
         empty_dim = any(d == 0 for d in v.dims)
-        if r <= 4 and not empty_dim:
+        if r <= 4 and not empty_dim and okind == "P":
             choices += ["ix"] * self.w_ix
         kind = rng.choice(choices)
         if kind == "ix":
@@ -610,6 +1078,11 @@ class Gen:
             if all(k == "scalar" for k in kinds) and rng.random() < 0.85:
                 j = rng.randrange(r)
                 args[j] = "_"; kinds[j] = "all"
+            if r == 6:
+                # rank 6: the harness has `__` in the last position only; elsewhere the whole dimension is written as a range
+                for j in range(r - 1):
+                    if args[j] == "_":
+                        args[j] = "r:0,e0"; kinds[j] = "range"
             for k in kinds:
                 self.count("arg_" + k)
             if bad and self.checked:
@@ -696,7 +1169,7 @@ class Gen:
                 nd = rng.choice([[0], [0, 2], [3, 0], [2, 0, 2]])
             else:
                 nd, m = [], n
-                for _ in range(rng.randint(1, 5) - 1):
+                for _ in range(rng.randint(1, 3 if okind == "A" else 6) - 1):
                     d = rng.choice([d for d in range(1, m + 1) if m % d == 0])
                     nd.append(d)
                     m //= d
@@ -809,13 +1282,42 @@ class Gen:
                 else:
                     args[j] = rng.choice(["r:%d,%d" % (good, x), "s:%d,%d,-1" % (x, good), "s:%d,e%d,2" % (good, L - 1 - x)])
                 self.count("malformed_ix_range_" + side)
+        # value-preserving rewriting: an index vector as an integer-vector expression over an intVector (u:VE:raw),
+        # a scalar next to an intVector as `end` arithmetic; then the const overload
+        if r <= 2 and rng.random() < 0.45:
+            cand = [k for k, a in enumerate(args) if a[:2] in ("v:", "x:", "w:") and len(a) > 2]
+            if r == 2:
+                cand += [k for k, a in enumerate(args) if a.startswith("i:") and args[1 - k].startswith("v:")]
+            rng.shuffle(cand)
+            for k in cand[:2]:
+                a, L = args[k], v.dims[k]
+                if a.startswith("i:"):
+                    t = rich_token(rng, tok(a[2:], L), L, XMENU[2], self.stats, "ix_scalar")
+                    new = None if t is None else "i:" + t
+                else:
+                    ent = ints_of(a[2:])
+                    if a[0] == "w":
+                        ent = [L - 1 - x for x in ent]
+                    new = vexpr_token(rng, ent, L, range(len(VSHAPES)) if r == 1 else range(NVMENU2), self.stats)
+                if new is None:
+                    continue
+                out = list(args)
+                out[k] = new
+                letters2 = [ix_letter(x) for x in out]
+                if None not in letters2 and ix_compiled(letters2):
+                    args = out
+                    self.count("ix_rank%d_rewritten_%s" % (r, "scalar" if a.startswith("i:") else "vector"))
+                    break
+        if rng.random() < self.p_const:
+            self.count("const_ix")
+            return "cix " + " ".join(args), "ix"
         return "ix " + " ".join(args), "ix"
 
     def composition(self):
         """-> list of lines (parent first)"""
-        line, v = self.parent()
+        line, v, okind = self.parent()
         lines = [line]
-        if self.contig:
+        if self.contig and okind != "F":
             lines.append("contig")
         depth = self.rng.randint(1, self.depth)
         n = 0
@@ -824,9 +1326,9 @@ class Gen:
             guard += 1
             if v is None or v.null or not v.dims:
                 break
-            text, kind = self.op(v)
+            text, kind = self.op(v, okind)
             if kind == "ix":
-                res = oracle_ix(v, text.split(), self.checked)
+                res = oracle_ix(v, text.split(), self.checked, okind)
                 if res is UNDEF or res[0] == "bad":
                     self.count("regenerated")
                     continue
@@ -842,42 +1344,57 @@ class Gen:
                         self.count("ix_result_rejected_element")
                 n += 1
                 continue
-            res = oracle_apply(v, text.split(), self.checked)
+            res = oracle_apply(v, text.split(), self.checked, okind)
             if res is UNDEF or res[0] == "bad":
                 self.count("regenerated")
                 continue
             lines.append(text)
             self.count("op_" + kind)
+            self.count("op_on_" + {"P": "passive", "A": "active", "F": "fixedarray"}[okind])
             if res[0] == "err":
                 self.count("error_" + res[1])
             elif res[0] == "null":
                 v = OV([0], [], null=True)
                 n += 1
             else:
+                if v.cells and len(v.cells) > 1:
+                    # the object the member was called on: was it itself a view with a non-unit stride / non-zero begin?
+                    if v.cells[0] != 0:
+                        self.count("receiver_nonzero_begin")
+                    if v.cells[-1] - v.cells[-2] != 1:
+                        self.count("receiver_last_stride_%s" % ("negative" if v.cells[-1] < v.cells[-2] else "non_unit"))
                 v = res[1]
+                if okind == "F":
+                    okind = "P"
+                if okind == "A" and kind == "softlink":
+                    # a soft link of an ACTIVE array cannot be sliced further (the view constructor raises
+                    # invalid_operation for an active array without Storage): the composition ends here
+                    self.count("active_softlink_ends_composition")
+                    break
                 self.count("result_rank_%d" % len(v.dims))
                 if not v.cells:
                     self.count("result_empty")
                 n += 1
-            if self.contig:
+            if self.contig and okind != "F":
                 lines.append("contig")
         return lines
 
 
 def systematic_malformed():
-    """bounds-checked build: every argument position of operator(), subset and operator[] for ranks 1..5, each with an
-    index below 0 / above n-1, written as an int and through `end`; one composition per case"""
+    """bounds-checked build: every argument position of operator(), subset and operator[] for ranks 1..6, each with an
+    index below 0 / above n-1, written as an int and through `end`; one composition per case, through the non-const and
+    (every second case) the const overload"""
     out = []
-    for r in range(1, 6):
-        dims = [3, 4, 2, 3, 2][:r]
+    for r in range(1, 7):
+        dims = [3, 4, 2, 3, 2, 2][:r]
         head = "parent rm " + " ".join(map(str, dims))
         for j in range(r):
             L = dims[j]
             for x in ("-1", str(L), "e-1", "e%d" % L):          # -1, L, end+1 (= L), end-L (= -1)
                 for form in ("i:%s", "r:%s,0", "r:0,%s", "s:%s,0,-1", "s:0,%s,2", "r:%s,e0", "s:e0,%s,-1"):
-                    args = ["_" if k % 2 else "i:0" for k in range(r)]
+                    args = [("_" if r < 6 or k == r - 1 else "r:0,e0") if k % 2 else "i:0" for k in range(r)]
                     args[j] = form % x
-                    out.append([head, "slice " + " ".join(args), "softlink"])
+                    out.append([head, ("cslice " if len(out) % 2 else "slice ") + " ".join(args), "softlink"])
                 t = ["0", "e0"] * r
                 for side in (0, 1):
                     t2 = list(t)
@@ -886,9 +1403,10 @@ def systematic_malformed():
                         t2[2 * j + 1] = x                              # keep the C++ extent non-negative
                     if side == 1 and tok(x, L) < 0:
                         t2[2 * j] = x
-                    out.append([head, "subset " + " ".join(t2), "softlink"])
+                    out.append([head, ("csubset " if len(out) % 2 else "subset ") + " ".join(t2), "softlink"])
         for x in ("-1", str(dims[0]), "e-1", "e%d" % dims[0]):
             out.append([head, "idx " + x, "softlink"])
+            out.append([head, "cidx " + x, "softlink"])
     return out
 
 
@@ -990,6 +1508,214 @@ def empty_extent_probes():
             ["parent rm 2 3 2 3", "ix v:1 r:1,0 _ v:2,0"]]
 
 
+def strided_view_op(dims):
+    """an operator() call that turns a view of these extents into one with non-unit / negative strides and a non-zero
+    begin in every dimension that is long enough"""
+    args = []
+    for k, L in enumerate(dims):
+        if L >= 3:
+            args.append("s:e0,1,-1" if k % 2 == 0 else "s:1,e0,2")
+        elif L == 2:
+            args.append("s:1,0,-1")
+        else:
+            args.append("r:0,e0" if len(dims) == 6 and k < 5 else "_")
+    return "slice " + " ".join(args)
+
+
+def const_sweep():
+    """every member that has a const overload, called through the const AND the non-const object, on a receiver that is
+    itself a view with non-unit / negative strides and a non-zero begin (and on the view of that view), for every rank,
+    row- and column-major parents, active arrays and FixedArray parents.  One composition per call; run in both builds."""
+    out = []
+    parents = [("parent %s" % o, d) for o in ("rm", "cm") for d in ([7], [4, 5], [3, 4, 3], [3, 2, 3, 3], [2, 3, 2, 3, 2], [2, 2, 3, 2, 2, 3])]
+    parents += [("aparent rm", [6]), ("aparent cm", [4, 3]), ("aparent rm", [3, 2, 3])]
+    for head, dims in parents:
+        kind = "A" if head.startswith("a") else "P"
+        r = len(dims)
+        pre = [head + " " + " ".join(map(str, dims)), strided_view_op(dims)]
+        v = oracle_apply(parent_of(pre[0].split())[1], pre[1].split(), False, kind)[1]
+        nd = v.dims
+        rng6 = lambda a, k: a if not (r == 6 and k < 5 and a == "_") else "r:0,e0"
+        calls = []
+        calls.append("slice " + " ".join("r:1,e0" if L >= 2 else rng6("_", k) for k, L in enumerate(nd)))
+        calls.append("slice " + " ".join("s:e0,%d,-1" % (1 if L >= 2 else 0) for L in nd))
+        calls.append("slice " + " ".join(("i:%d" % (L - 1)) if k % 2 == 0 else ("r:%d,e0" % (1 if L >= 2 else 0)) for k, L in enumerate(nd)))
+        calls.append("slice " + " ".join(("r:1,%d" % (L - 1)) if (k % 2 == 0 and L >= 2) else "i:e0" for k, L in enumerate(nd)))
+        calls.append("slice " + " ".join("i:%d" % (L - 1) for L in nd))
+        calls.append("slice " + " ".join("i:e%d" % (L - 1) for L in nd))
+        if r >= 2:
+            calls.append("slice " + " ".join(["i:1" if nd[0] >= 2 else "i:0"] + [rng6("_", k + 1) for k in range(r - 1)]))
+            calls.append("slice " + " ".join([rng6("_", k) if k == r - 1 else "i:e0" for k in range(r)]))
+        calls.append("subset " + " ".join("%d e0" % (1 if L >= 2 else 0) for L in nd))
+        calls.append("subset " + " ".join("%d %d" % ((1, L - 1) if L >= 2 else (0, 0)) for L in nd))
+        calls.append("idx %d" % (nd[0] - 1))
+        calls.append("idx e%d" % (nd[0] - 1))
+        calls.append("softlink")
+        if r == 2:
+            calls.append("T")
+        if kind == "P" and r <= 4:
+            pat = {1: "V", 2: "VR", 3: "IVR", 4: "IVRE"}[r]
+            calls.append("ix " + " ".join(ix_valid_arg(l, L, k) for k, (l, L) in enumerate(zip(pat, nd))))
+        for c in calls:
+            for prefix in ("", "c"):
+                out.append(pre + [prefix + c])
+                out.append(pre + [strided_view_op(nd), prefix + c] if all(L >= 2 for L in nd) and "ix" not in c else pre + [prefix + c, "softlink"])
+    for dims in FIXED_MENU:
+        head = "fparent " + " ".join(map(str, dims))
+        r = len(dims)
+        calls = ["slice " + " ".join("r:1,e0" for _ in dims), "slice " + " ".join("s:e0,0,-2" for _ in dims),
+                 "slice " + " ".join("i:%d" % (L - 1) for L in dims), "slice " + " ".join("i:e0" if k else "_" for k in range(r)),
+                 "slice " + " ".join("i:1" if k != r - 1 else "s:%d,1,-1" % (dims[k] - 1) for k in range(r)),
+                 "subset " + " ".join("1 e0" for _ in dims), "subset " + " ".join("0 %d" % (L - 2) for L in dims),
+                 "idx 1", "idx e0"]
+        if r == 2:
+            calls += (["T"] if FIXED_T_IS_VIEW[0] else []) + ["permute 1 0", "diag 1", "diag -1", "subdiag 1 2"]
+        if r == 3:
+            calls += ["permute 2 0 1", "permute 1 2 0"]
+        for c in calls:
+            for prefix in ("", "c"):
+                if prefix and c.split()[0] not in CONST_OPS or (prefix and c.startswith("idx") and r > 1):
+                    continue
+                out.append([head, prefix + c, "softlink"])
+    return out
+
+
+def rich_sweep(rng, checked, stats):
+    """every compiled shape of `end` arithmetic, in every role (scalar index, range begin, range end, both, stride) and
+    every argument position, ranks 1..3 (the receiver is a reversed view of the parent), operator() / subset /
+    operator[], const and non-const; the integers of each expression are solved for a random admissible value.  In the
+    bounds-checked build also every shape holding the values -1 and n as a scalar index and as range end points."""
+    out = []
+    for r in (1, 2, 3):
+        dims = {1: [9], 2: [5, 6], 3: [4, 5, 3]}[r]
+        pre = ["parent %s %s" % ("rm" if r != 2 else "cm", " ".join(map(str, dims))), strided_view_op(dims)]
+        nd = oracle_apply(parent_of(pre[0].split())[1], pre[1].split(), False, "P")[1].dims
+        roles = {1: ["S", "B", "E", "BE", "ST"], 2: ["S", "B", "E"], 3: ["S", "B"]}[r]
+        for sid in range(XMENU[r]):
+            shape = XSHAPES[sid]
+            for role in roles:
+                for j in range(r):
+                    L = nd[j]
+                    vals = [rng.randrange(L), rng.randrange(L)]
+                    lo, hi = min(vals), max(vals)
+                    want = [("ok", lo, hi)]
+                    if checked:
+                        want += [("bad", -1, hi), ("bad", lo, L)]
+                    for tag, lo2, hi2 in want:
+                        def tk(val):
+                            c = solve_shape(rng, shape, val, L - 1)
+                            return None if c is None else px_fill(shape, c)
+                        if role == "S":
+                            t = tk(lo2 if tag == "ok" or lo2 < 0 else hi2)
+                            arg = None if t is None else "i:" + t
+                        elif role == "B":
+                            t = tk(lo2)
+                            arg = None if t is None else "r:%s,%d" % (t, min(hi2, L - 1))
+                        elif role == "E":
+                            t = tk(hi2)
+                            arg = None if t is None else "r:%d,%s" % (max(lo2, 0), t)
+                        elif role == "BE":
+                            t1, t2 = tk(lo2), tk(hi2)
+                            arg = None if None in (t1, t2) else "s:%s,%s,1" % (t1, t2)
+                        else:
+                            st = rng.choice([1, 2, 3])
+                            t = tk(st)
+                            arg = None if t is None or tag != "ok" else "s:%d,%d,%s" % (lo2, hi2, t)
+                        if arg is None:
+                            continue
+                        others = ["i:e0" if (k + j) % 2 else "_" for k in range(r)] if r == 3 else \
+                                 [("i:%d" % (nd[k] - 1), "r:0,e0", "_")[(k + j + sid) % 3] for k in range(r)]
+                        args = list(others)
+                        args[j] = arg
+                        if not slice_compiled("P", r, args):
+                            continue
+                        stats["sweep_rich_%s_%s" % (role, shape)] = stats.get("sweep_rich_%s_%s" % (role, shape), 0) + 1
+                        out.append(pre + [("cslice " if (sid + j) % 2 else "slice ") + " ".join(args), "softlink"])
+            if r <= 2:
+                L = nd[0]
+                for val in [rng.randrange(L)] + ([-1, L] if checked else []):
+                    c = solve_shape(rng, shape, val, L - 1)
+                    if c is None:
+                        continue
+                    t = px_fill(shape, c)
+                    out.append(pre + [("cidx " if sid % 2 else "idx ") + t, "softlink"])
+                    sub = ["0", "e0"] * r
+                    for pos in range(2 * r):
+                        Lp = nd[pos // 2]
+                        # admissible for this dimension, or (bounds-checked build) -1 / the extent
+                        c2 = solve_shape(rng, shape, (val % Lp) if 0 <= val < L else (val if val < 0 else Lp), Lp - 1)
+                        if c2 is None:
+                            continue
+                        s2 = list(sub)
+                        s2[pos] = px_fill(shape, c2)
+                        b, e = tok(s2[pos - pos % 2], Lp), tok(s2[pos - pos % 2 + 1], Lp)
+                        if e + 1 - b < 0:
+                            continue
+                        out.append(pre + [("csubset " if (sid + pos) % 2 else "subset ") + " ".join(s2), "softlink"])
+    return out
+
+
+def vexpr_sweep(rng, checked, stats):
+    """every compiled integer-vector expression as an index vector: rank 1 (all shapes), rank 2 (the first NVMENU2 shapes
+    with every partner I E R A V in either order; every rich scalar shape of the rank-2 menu next to an intVector), through
+    the const and the non-const operator(); entries admissible, and in the bounds-checked build also one entry -1 / n"""
+    out = []
+    pre1 = ["parent rm 11", "slice s:e0,1,-1"]                      # 10 elements, reversed, begin 10
+    pre2 = ["parent cm 6 7", "slice s:e0,1,-1 s:1,e0,2"]           # 5 x 3
+    for sid in range(len(VSHAPES)):
+        for variant in (["ok", "ok"] + (["bad-1", "badn"] if checked else [])):
+            L = 10
+            ent = [rng.randrange(L) for _ in range(3)]
+            if sid == VSHAPES.index("(v+v)"):
+                ent = [2 * (x // 2) for x in ent]
+            if variant == "bad-1":
+                ent[rng.randrange(3)] = -1 if sid != VSHAPES.index("(v+v)") else -2
+            if variant == "badn":
+                ent[rng.randrange(3)] = L
+            t = vexpr_token(rng, ent, L, [sid], stats)
+            if t is not None:
+                out.append(pre1 + [("cix " if len(out) % 2 else "ix ") + t, "softlink"])
+            if sid < NVMENU2:
+                for partner in IX_PARTNER:
+                    for pos in (0, 1):
+                        Lv = (5, 3)[pos]
+                        ent = [rng.randrange(Lv) for _ in range(2)]
+                        if sid == VSHAPES.index("(v+v)"):
+                            ent = [2 * (x // 2) for x in ent]
+                        if variant == "badn":
+                            ent[0] = Lv
+                        if variant == "bad-1":
+                            ent[1] = -1 if sid != VSHAPES.index("(v+v)") else -2
+                        t = vexpr_token(rng, ent, Lv, [sid], stats)
+                        if t is None:
+                            continue
+                        args = [None, None]
+                        args[pos] = t
+                        args[1 - pos] = ix_valid_arg(partner, (5, 3)[1 - pos], sid + pos)
+                        out.append(pre2 + [("cix " if (sid + pos) % 2 else "ix ") + " ".join(args), "softlink"])
+    for sid in range(XMENU[2]):
+        for pos in (0, 1):
+            Ls = (5, 3)[pos]
+            for val in [rng.randrange(Ls)] + ([-1, Ls] if checked else []):
+                c = solve_shape(rng, XSHAPES[sid], val, Ls - 1)
+                if c is None:
+                    continue
+                args = [None, None]
+                args[pos] = "i:" + px_fill(XSHAPES[sid], c)
+                args[1 - pos] = ix_valid_arg("V", (5, 3)[1 - pos], sid)
+                stats["sweep_ix_rich_scalar_%s" % XSHAPES[sid]] = stats.get("sweep_ix_rich_scalar_%s" % XSHAPES[sid], 0) + 1
+                out.append(pre2 + [("cix " if (sid + pos) % 2 else "ix ") + " ".join(args), "softlink"])
+    return out
+
+
+def fixed_T_probes():
+    """FixedArray::T(): documented (like every slicing member of FixedArray) to return an Array that links to the data of
+    the FixedArray.  The pinned FixedArray::my_T builds `Array<2> out(*this)`, which for a FixedArray argument is the
+    copying constructor from an expression: the result is a transposed COPY, writes through M.T() are lost (finding;
+    /tmp/bld_c06/finding_2).  The random streams call T() on a FixedArray only where these probes pass."""
+    return [["fparent 3 4", "T"], ["fparent 3 3", "cT"], ["fparent 3 4", "cT"], ["fparent 3 3", "T"]]
+
+
 # ====================================================================== running
 def run_pair(exe, mode, comps):
     """run implementation and model on the compositions; -> (impl_lines, model_lines, rc, err)"""
@@ -1003,22 +1729,25 @@ def signature_of(err, lines=None, nout=None, checked=False):
     """signature of a crash: by the sanitizer report, or by the operation the implementation stopped in"""
     if "is_contiguous" in err:
         return "F-08:is_contiguous-reads-offset-out-of-bounds"
-    if lines is not None and nout is not None and 0 <= nout < len(lines) and lines[nout].startswith("ix "):
+    if lines is not None and nout is not None and 0 <= nout < len(lines) and lines[nout].split()[0] in ("ix", "cix"):
         # replay the oracle up to the crashing `ix` to see whether it has a zero extent behind a non-zero leading one
-        v = None
+        v, kind = None, "P"
         for l in lines[:nout]:
             w = l.split()
-            if w[0] == "parent":
-                v = parent_view(w[1], [int(x) for x in w[2:]])
-            elif w[0] not in ("contig", "ix") and v is not None:
-                res = oracle_apply(v, w, checked)
+            if w[0] in ("parent", "aparent", "fparent"):
+                pk = parent_of(w)
+                if pk is not None:
+                    kind, v = pk
+            elif w[0] not in ("contig", "ix", "cix") and v is not None:
+                res = oracle_apply(v, w, checked, kind)
                 if res is UNDEF:
                     return None
                 if res[0] == "ok":
                     v = res[1]
+                    kind = "P" if kind == "F" else kind
                 elif res[0] == "null":
                     v = OV([0], [], null=True)
-        res = oracle_ix(v, lines[nout].split(), checked)
+        res = oracle_ix(v, lines[nout].split(), checked, kind)
         if res is not UNDEF and res[0] == "ix" and 0 in res[1]["dims"][1:] and res[1]["dims"][0] != 0:
             return SIG_EMPTY
     return None
@@ -1055,7 +1784,12 @@ def run_batch(ctx, exe, mode, comps, label):
                                "signature": signature_of(err2 or err, shr, len(i2) - 1 if i2 else None, checked)})
                 nxt = todo[ci + 1:] if crashes < 3 else []
                 break
-            bad = oracle(c, il, checked)
+            limit = []
+            bad = oracle(c, il, checked, limit)
+            if limit:
+                # a call whose argument types the harness does not have (hand-written case): the model is compared up to it
+                il, ml = il[:limit[0]], ml[:limit[0]]
+                ctx.cov["not_compiled_calls_skipped"] = ctx.cov.get("not_compiled_calls_skipped", 0) + 1
             if bad is not None:
                 ctx.cov["oracle_failures"] = ctx.cov.get("oracle_failures", 0) + 1
                 if ctx.cov["oracle_failures"] <= 3:
@@ -1101,6 +1835,11 @@ def shrink(ctx, exe, mode, c, what):
             return False
         if what == "oracle":
             return oracle(comp, il, checked) is not None
+        limit = []
+        if oracle(comp, il, checked, limit) is not None:
+            return False
+        if limit:
+            il, ml = il[:limit[0]], ml[:limit[0]]
         return vcheck.first_diff(il, ml) is not None
     if not ops:
         return c
@@ -1109,23 +1848,24 @@ def shrink(ctx, exe, mode, c, what):
     # then the entries of every index vector of every `ix` operation (ddmin over the entry list)
     budget = [40]
     for k, op in enumerate(ops):
-        if not op.startswith("ix "):
+        if op.split()[0] not in ("ix", "cix"):
             continue
         args = op.split()[1:]
         for j, a in enumerate(args):
-            if a[:2] not in ("v:", "x:", "w:") or a.count(",") == 0:
+            if a[:2] not in ("v:", "x:", "w:", "u:") or a.count(",") == 0:
                 continue
+            pre = a[:a.rindex(":") + 1]          # `v:` / `u:EXPR:`
 
-            def fails_entries(ent, k=k, j=j):
+            def fails_entries(ent, k=k, j=j, pre=pre):
                 if budget[0] <= 0:
                     return False
                 budget[0] -= 1
                 a2 = list(args)
-                a2[j] = a[:2] + ",".join(ent)
-                return fails(ops[:k] + ["ix " + " ".join(a2)] + ops[k + 1:])
-            ent = vcheck.ddmin(a[2:].split(","), fails_entries, max_tests=20)
-            args[j] = a[:2] + ",".join(ent)
-            ops = ops[:k] + ["ix " + " ".join(args)] + ops[k + 1:]
+                a2[j] = pre + ",".join(ent)
+                return fails(ops[:k] + [op.split()[0] + " " + " ".join(a2)] + ops[k + 1:])
+            ent = vcheck.ddmin(a[len(pre):].split(","), fails_entries, max_tests=20)
+            args[j] = pre + ",".join(ent)
+            ops = ops[:k] + [op.split()[0] + " " + " ".join(args)] + ops[k + 1:]
     return [head] + list(ops)
 
 
@@ -1153,7 +1893,9 @@ def build_all():
 
     def one(name, defs):
         try:
-            res[name] = vbuild.build("views", DRIVERS, defines=defs)
+            # -O0: the dispatch templates instantiate thousands of small functions; optimising them (and instrumenting the
+            # optimised code) costs ten times the compile time and observes nothing more
+            res[name] = vbuild.build("views", DRIVERS, defines=defs, opt="-O0")
         except Exception as e:      # re-raised in the main thread
             errs.append(e)
     th = [threading.Thread(target=one, args=("unchecked", [])),
@@ -1177,8 +1919,14 @@ def run(ctx, replay):
         "stride); permute is given a permutation; direction-inconsistent ranges further apart than one stride and "
         "diag_vector offsets beyond n yield an Array with a negative dimension in both builds (modelled as Err.undefined, "
         "outside the property)",
-        "Index arithmetic does not overflow; element type int, passive arrays (views of active arrays share this code "
-        "but are not executed here); ranks 1..5 (the C++ supports 7)",
+        "Index arithmetic does not overflow and no index expression divides by zero (C++ undefined behaviour; modelled as "
+        "`err undefined`, never generated); element types int (passive, FixedArray) and double (active); ranks 1..6 "
+        "(Array<7,..> cannot be instantiated in the pinned tree: the enable_if of permute(i0,..) is a hard error); unary "
+        "minus on an index expression does not compile in the pinned tree (UnaryOperation::value_with_len_)",
+        "argument types: the compiled menus of harness/drv_views.h (plain arguments: every mixture for passive ranks 1-2, "
+        "int family or end-k family per call for ranks 3-6 / active / FixedArray, rank 6 with __ in the last position only; "
+        "`end` arithmetic: XSHAPES in one argument per call, passive ranks 1-3); active arrays: ranks 1..3, no "
+        "integer-vector indexing; FixedArray parents: 4, 3x4, 3x3, 2x3x4",
         "integer-vector indexing: ranks 1..4, argument-type patterns of the compiled menu (drv_views_idx.h); the default "
         "build is given admissible index-vector entries only; a zero extent behind a non-zero leading extent is probed by "
         "seven fixed regression cases (finding F-47, fixed), the random streams select "
@@ -1191,6 +1939,15 @@ def run(ctx, replay):
         report_pending(ctx, fails)
         return
     quick = ctx.tier == "quick"
+    # FixedArray::T(): is it a view on this tree?  (reported with its signature where it is not; generated only where it is)
+    probes = fixed_T_probes()
+    impl, _, _, _ = run_pair(exes["unchecked"], "unchecked", probes)
+    FIXED_T_IS_VIEW[0] = len(impl) == 1 + sum(len(c) for c in probes) and all(
+        oracle(c, impl[1 + 2 * k:3 + 2 * k], False) is None for k, c in enumerate(probes))
+    ctx.notes["fixedarray_T_is_a_view"] = FIXED_T_IS_VIEW[0]
+    for mode in ("unchecked", "checked"):
+        for c in probes:
+            run_batch(ctx, exes[mode], mode, [c], ("default" if mode == "unchecked" else "bounds-checking") + "/fixedarray-T")
     depth = 4 if quick else 6
     n_valid, n_valid_chk, n_malf, n_contig = (3000, 800, 1500, 400) if quick else (60000, 14000, 26000, 4000)
     stats = {}
@@ -1215,6 +1972,20 @@ def run(ctx, replay):
     sysm = systematic_malformed()
     ctx.notes["systematic_malformed_cases"] = len(sysm)
     run_batch(ctx, exes["checked"], "checked", sysm, "bounds-checking/systematic")
+    # const overloads on strided / reversed / offset receivers, every rank and kind of object, both builds
+    csw = const_sweep()
+    ctx.notes["const_sweep_cases"] = len(csw)
+    run_batch(ctx, exes["unchecked"], "unchecked", csw, "default/const-sweep")
+    run_batch(ctx, exes["checked"], "checked", csw, "bounds-checking/const-sweep")
+    # `end` arithmetic: every shape x role x position, and every integer-vector expression, both builds
+    for mode in ("unchecked", "checked"):
+        lab = "default" if mode == "unchecked" else "bounds-checking"
+        rsw = rich_sweep(ctx.rng, mode == "checked", stats)
+        ctx.notes["end_arithmetic_sweep_cases_" + mode] = len(rsw)
+        run_batch(ctx, exes[mode], mode, rsw, lab + "/end-arithmetic-sweep")
+        vsw = vexpr_sweep(ctx.rng, mode == "checked", stats)
+        ctx.notes["vector_expression_sweep_cases_" + mode] = len(vsw)
+        run_batch(ctx, exes[mode], mode, vsw, lab + "/vector-expression-sweep")
     sweep = menu_sweep()
     ctx.notes["indexed_menu_patterns"] = len(sweep)
     run_batch(ctx, exes["unchecked"], "unchecked", sweep, "default/indexed-menu")
@@ -1227,13 +1998,20 @@ def run(ctx, replay):
         for c in empty_extent_probes():
             run_batch(ctx, exes[mode], mode, [c], ("default" if mode == "unchecked" else "bounds-checking") + "/indexed-empty-extent")
     ctx.notes["distribution"] = dict(sorted(stats.items()))
-    ctx.cov["rule"] = ("compositions = parent (rank 1..5, row- or column-major, volume <= 240) followed by 1..%d view-forming "
+    ctx.cov["rule"] = ("compositions = parent (passive Array<r,int> r = 1..6 80%%, active Array<r,double,true> r = 1..3 10%%, "
+                       "FixedArray 10%%; row- or column-major, volume <= 240) followed by 1..%d view-forming "
                        "operations drawn from slice(int/end-k/range/stride(+/-)/__), subset, operator[], T, permute, diag_vector, "
-                       "submatrix_on_diagonal, reshape, soft_link, and (ranks 1..4) integer-vector indexing A(S0,..) with "
-                       "scalar/end-k/range/__/intVector/integer-expression selectors read and assigned through; %d admissible compositions on the default build, %d on the "
+                       "submatrix_on_diagonal, reshape, soft_link, and (passive ranks 1..4) integer-vector indexing A(S0,..) with "
+                       "scalar/end-k/range/__/intVector/integer-expression selectors read and assigned through; every operation "
+                       "that has a const overload goes through it with probability 1/2; with probability 0.3 one argument of an "
+                       "eligible call (passive ranks 1-3) is rewritten as `end` arithmetic of a random compiled shape with the same "
+                       "value, and with probability 0.45 one index vector (ranks 1-2) as an integer-vector expression; "
+                       "%d admissible compositions on the default build, %d on the "
                        "bounds-checked build, %d with out-of-range values injected per argument position on the bounds-checked "
-                       "build, %d with is_contiguous() probed after every step; non-trivial = at least two operations; distinct "
-                       "= different (mode, op list)" % (depth, n_valid, n_valid_chk, n_malf, n_contig))
+                       "build, %d with is_contiguous() probed after every step; plus the directed sweeps (const overloads on "
+                       "strided/reversed/offset receivers for every rank and kind of object; every `end`-arithmetic shape x role x "
+                       "position; every integer-vector expression x partner; counts in the notes); non-trivial = at least two "
+                       "operations; distinct = different (mode, op list)" % (depth, n_valid, n_valid_chk, n_malf, n_contig))
     ctx.cov["exhaustive"] = False
     report_pending(ctx, fails)
 
@@ -1243,12 +2021,12 @@ class GenValid(Gen):
     def __init__(self, rng, checked, depth, stats):
         Gen.__init__(self, rng, checked, True, depth, stats, pbad=0.1)
 
-    def op(self, v):
+    def op(self, v, okind="P"):
         # index values stay admissible: the malformed branch of slice/subset/idx is only taken for checked+malformed
         saved = self.checked
         self.checked = False
         try:
-            return Gen.op(self, v)
+            return Gen.op(self, v, okind)
         finally:
             self.checked = saved
 
